@@ -348,6 +348,14 @@ func scanAll(src io.ReaderAt, size int64, sentinel error) (string, error) {
 			switch {
 			case err == nil:
 				b.WriteString(valueDigest(v) + ";")
+				if stm, ok := v.(*pdf.Stream); ok {
+					// the extent of the stream: its raw bytes
+					raw, err := io.ReadAll(stm.NewReader())
+					if errors.Is(err, sentinel) {
+						return "", err
+					}
+					fmt.Fprintf(&b, "raw=%s err=%v;", digestBytes(raw), err != nil)
+				}
 			case errors.Is(err, sentinel):
 				return "", err
 			default:
@@ -490,11 +498,16 @@ func (sc *readScenario) runReadCur(src *faultSrc, progress *atomic.Value) (outs 
 }
 
 type readRun struct {
-	Side  string    `json:"side"`
-	Doc   string    `json:"doc"`
-	Mode  string    `json:"mode"`
-	Plan  faultPlan `json:"plan"`
-	Hit   bool      `json:"hit"`
+	Side string    `json:"side"`
+	Doc  string    `json:"doc"`
+	Mode string    `json:"mode"`
+	Plan faultPlan `json:"plan"`
+	Hit  bool      `json:"hit"`
+	// write side: Hit = a Write or Seek of the sink failed; RHit = a Read of
+	// the sink (Writer.Get) failed; Same = the bytes in the sink equal those
+	// of the fault-free session
+	RHit  bool      `json:"rhit"`
+	Same  bool      `json:"same"`
 	Calls []callOut `json:"calls"`
 	Outs  []wOut    `json:"outs"`
 	At    string    `json:"at"`  // site of the failed operation
@@ -535,18 +548,23 @@ func compare(base, got []callOut) {
 // ---- write-side scenario ----
 
 type faultSink struct {
-	buf   []byte
-	off   int64
-	plan  faultPlan
-	err   error
-	n     int
-	hit   bool
-	at    site
-	sites []site
-	trace bool
+	readFailed, writeFailed bool // a Read/ReadAt resp. a Write/Seek has failed
+	buf                     []byte
+	off                     int64
+	plan                    faultPlan
+	err                     error
+	n                       int
+	hit                     bool
+	at                      site
+	sites                   []site
+	trace                   bool
 }
 
-func (f *faultSink) op() bool {
+func (f *faultSink) op() bool { return f.opKind(false) }
+
+// opKind counts one sink operation; reading (Writer.Get) is told apart from
+// writing and seeking, which the write-side clause of the property is about.
+func (f *faultSink) opKind(read bool) bool {
 	f.n++
 	if f.trace {
 		f.sites = append(f.sites, callSite2())
@@ -554,12 +572,17 @@ func (f *faultSink) op() bool {
 	bad := f.plan.faulty(f.n)
 	if bad && !f.hit {
 		f.hit = true
-		f.at = callSite2()
+		f.at = callSiteSkip(5)
+	}
+	if bad && read {
+		f.readFailed = true
+	} else if bad {
+		f.writeFailed = true
 	}
 	return bad
 }
 
-func callSite2() site { return callSiteSkip(4) }
+func callSite2() site { return callSiteSkip(5) }
 
 func callSiteSkip(skip int) site {
 	pcs := make([]uintptr, 48)
@@ -631,9 +654,53 @@ func (f seekFaultSink) Seek(offset int64, whence int) (int64, error) {
 	return f.off, nil
 }
 
+// rwFaultSink can also be read (Writer.Get); reads count as sink operations.
+type rwFaultSink struct{ seekFaultSink }
+
+func (f rwFaultSink) Read(p []byte) (int, error) {
+	bad := f.opKind(true)
+	if f.off >= int64(len(f.buf)) && !bad {
+		return 0, io.EOF
+	}
+	avail := f.buf[min(f.off, int64(len(f.buf))):]
+	if bad {
+		n := 0
+		if f.plan.Partial && len(p) > 1 {
+			n = copy(p[:f.plan.keep(len(p))], avail)
+			f.off += int64(n)
+		}
+		return n, f.err
+	}
+	n := copy(p, avail)
+	f.off += int64(n)
+	return n, nil
+}
+
+func (f rwFaultSink) ReadAt(p []byte, off int64) (int, error) {
+	bad := f.opKind(true)
+	var avail []byte
+	if off < int64(len(f.buf)) {
+		avail = f.buf[off:]
+	}
+	if bad {
+		n := 0
+		if f.plan.Partial && len(p) > 1 {
+			n = copy(p[:f.plan.keep(len(p))], avail)
+		}
+		return n, f.err
+	}
+	n := copy(p, avail)
+	if n < len(p) {
+		return n, io.EOF
+	}
+	return n, nil
+}
+
 func runWrite(plan *shared.DocPlan, fs *faultSink) (outs []wOut, data []byte) {
 	var sink io.Writer = fs
-	if plan.Opt.Seekable {
+	if plan.Opt.ReadBack {
+		sink = rwFaultSink{seekFaultSink{fs}}
+	} else if plan.Opt.Seekable {
 		sink = seekFaultSink{fs}
 	}
 	defer func() {
@@ -669,7 +736,8 @@ func docSpecs(ctx *core.Ctx) []docSpec {
 		{s + 1, shared.DocOptions{Version: pdf.V1_4, Seekable: true, Objects: 9, MinStreams: 2, Bodies: eol, Info: true}, "table-1.4", "", ""},
 		{s + 2, shared.DocOptions{Version: pdf.V1_7, XRefStream: true, ObjStm: true, Seekable: true, Objects: 10, Bodies: eol, Filters: shared.AllFilters, Info: true}, "xrefstream-objstm-filters", "", ""},
 		{s + 3, shared.DocOptions{Version: pdf.V1_6, Encrypt: true, Seekable: true, Objects: 8, Bodies: eol, Filters: []string{"Flate", "ASCII85"}, Info: true}, "table-1.6-aes128", "", ""},
-		{s + 4, shared.DocOptions{Version: pdf.V1_4, Seekable: false, Objects: 5, MinStreams: 2, Bodies: []shared.BodyKind{shared.BodyBig}, Info: false}, "table-1.4-noseek-indirect-length", "", ""},
+		{s + 4, shared.DocOptions{Version: pdf.V1_4, Seekable: false, Objects: 7, MinStreams: 4, CycleBodies: true,
+			Bodies: []shared.BodyKind{shared.BodyBig, shared.BodyBigCR, shared.BodyBigEOLEndstream, shared.BodyBigEOLEndobj}, Info: false}, "table-1.4-noseek-indirect-length", "", ""},
 	}
 	// incremental updates: two or three small revisions, every one changing values
 	specs = append(specs,
@@ -702,6 +770,9 @@ func writeSpecs(ctx *core.Ctx) []docSpec {
 		{s + 2, shared.DocOptions{Version: pdf.V1_4, Seekable: false, Objects: 16, MinStreams: 3, Bodies: big, Info: true}, "w-table-nonseekable", "", ""},
 		{s + 3, shared.DocOptions{Version: pdf.V1_7, XRefStream: true, ObjStm: true, Seekable: true, Objects: 20, MinStreams: 3, Bodies: big, Filters: []string{"ASCIIHex", "Flate"}}, "w-xrefstream-objstm-seekable", "", ""},
 		{s + 4, shared.DocOptions{Version: pdf.V1_6, Encrypt: true, Seekable: false, Objects: 14, MinStreams: 3, Bodies: big, Filters: []string{"ASCII85"}, Info: true}, "w-aes128-nonseekable", "", ""},
+		// read-write-seek sinks: Writer.Get of earlier objects between the Puts, OpenStream with an indirect /Filter
+		{s + 9, shared.DocOptions{Version: pdf.V1_4, Seekable: true, ReadBack: true, Objects: 16, MinStreams: 4, Bodies: []shared.BodyKind{shared.BodyBig, shared.BodyPlain}, Info: true}, "w-table-readback", "", ""},
+		{s + 10, shared.DocOptions{Version: pdf.V1_7, XRefStream: true, ObjStm: true, Seekable: true, ReadBack: true, Objects: 18, MinStreams: 3, Bodies: []shared.BodyKind{shared.BodyBig, shared.BodyEOL}}, "w-xrefstream-objstm-readback", "", ""},
 	}
 	if ctx.Thorough() {
 		specs = append(specs,
@@ -1033,8 +1104,8 @@ func enumerateWrite(ctx *core.Ctx, sp docSpec, di int, st *stats) ([]readRun, in
 			for _, fl := range writeFlavours {
 				fs := &faultSink{plan: faultPlan{p, k, fl.partial, fl.withhold, 0}, err: &injected{fmt.Sprintf("%s/%d", p, k)}}
 				outs, data := runWrite(plan, fs)
-				rr := readRun{Side: "write", Doc: sp.Name, Mode: map[bool]string{true: "seekable", false: "non-seekable"}[sp.Opt.Seekable], Plan: fs.plan, Hit: fs.hit,
-					Calls: []callOut{}, Outs: outs, Count: 1, docIx: di}
+				rr := readRun{Side: "write", Doc: sp.Name, Mode: map[bool]string{true: "seekable", false: "non-seekable"}[sp.Opt.Seekable], Plan: fs.plan, Hit: fs.writeFailed, RHit: fs.readFailed,
+					Same: sp.Opt.Encrypt || bytes.Equal(data, baseData), Calls: []callOut{}, Outs: outs, Count: 1, docIx: di}
 				if fs.hit {
 					rr.At, rr.Via = fs.at.Fn, fs.at.Via
 				} else if !sp.Opt.Encrypt && !bytes.Equal(data, baseData) {
@@ -1048,7 +1119,7 @@ func enumerateWrite(ctx *core.Ctx, sp docSpec, di int, st *stats) ([]readRun, in
 	st.mu.Lock()
 	st.runs += len(out)
 	for _, rr := range out {
-		if rr.Hit {
+		if rr.Hit || rr.RHit {
 			st.sites["write|"+opOfSite("write", site{rr.At, rr.Via})+"|"+rr.At+"<"+rr.Via]++
 			st.pairs[fmt.Sprintf("write/%s/%s/%s/%s/%s", rr.Mode, rr.Outs[0].Call, rr.At, rr.Plan.Plan, rr.Outs[0].Cls)] = true
 		}
@@ -1090,7 +1161,7 @@ func judge(ctx *core.Ctx, runs []readRun) ([]int, error) {
 
 func runSig(r readRun) string {
 	var b strings.Builder
-	fmt.Fprintf(&b, "%s|%s|%s|%s|%v/%d/%d|%v|%s|%s|%s|", r.Side, r.Doc, r.Mode, r.Plan.Plan, r.Plan.Partial, r.Plan.Withhold, r.Plan.Deliver, r.Hit, r.At, r.Via, r.In)
+	fmt.Fprintf(&b, "%s|%s|%s|%s|%v/%d/%d|%v%v%v|%s|%s|%s|", r.Side, r.Doc, r.Mode, r.Plan.Plan, r.Plan.Partial, r.Plan.Withhold, r.Plan.Deliver, r.Hit, r.RHit, r.Same, r.At, r.Via, r.In)
 	for _, c := range r.Calls {
 		fmt.Fprintf(&b, "%s%s%v%v%v,", c.Call, c.Cls, c.Same, c.Carries, c.Malformed)
 	}
@@ -1210,10 +1281,15 @@ func symptom(c callOut) string {
 // No offsets, no k, no messages, not the call in which the symptom showed.
 func violationKey(r readRun) string {
 	if r.Side == "write" {
-		if !r.Hit {
-			return "write/no-fault-but-error"
+		switch {
+		case r.Hit && !(r.Outs[0].Cls == "err" && r.Outs[0].Carries):
+			return fmt.Sprintf("write/%s/sink-failure-unreported/at=%s<%s", r.Mode, r.At, r.Via)
+		case r.Outs[0].Cls == "ok" && !r.Same:
+			return fmt.Sprintf("write/%s/different-file-without-error/at=%s<%s", r.Mode, r.At, r.Via)
+		case r.RHit:
+			return fmt.Sprintf("write/%s/read-back-failure-misreported/at=%s<%s", r.Mode, r.At, r.Via)
 		}
-		return fmt.Sprintf("write/%s/sink-failure-unreported/at=%s<%s", r.Mode, r.At, r.Via)
+		return "write/no-fault-but-error"
 	}
 	if !r.Hit {
 		return "read/no-fault-but-different"
